@@ -50,7 +50,10 @@ def gen(rng, tier):
     tries = 0
     while len(pairs) < n and tries < n * 60:
         tries += 1
-        g = random_grammar(rng, p_empty=0.25)
+        # one pair in five has a user Layout rule (whitespace / line comments / nested comments): the layout parser is a
+        # separate code path in both runtimes (nested partial parse through the parser's own context resp. GSS head)
+        layout = rng.choice([None, None, None, None, "ws", "comments", "nested"])
+        g = random_grammar(rng, p_empty=0.25, layout=layout)
         if g.undefined_symbols() or not g.all_productive() or g.is_cyclic():
             continue
         alphabet = list(g.terms.keys())
@@ -67,7 +70,7 @@ def gen(rng, tier):
                 add(s); add(mutate(rng, s, alphabet))
         inputs = []
         for toks in strings:
-            for ws in ("none", "mixed"):
+            for ws in (("none", "mixed") if layout in (None, "ws") else ("mixed", "layout")):
                 inputs.append((toks, lf.render_input(rng, g, toks, ws)))
         text = g.render()
         lr = lf.Case(text, ["LR", "LALR_PAGER"] + ["-"] * 8, [("LR", "0", s, {"toks": t}) for t, s in inputs], gram=g)
@@ -86,6 +89,8 @@ def run(rep, tier, seed):
         rep.violation({"broken": "harness build", "log": log[-3000:]}, no_input=True)
         return
     pairs = gen(rng, tier)
+    lf.add_histories(rng, [p.lr for p in pairs])
+    lf.add_histories(rng, [p.glr for p in pairs])
     lf.run_cases([p.lr for p in pairs], extra_requests=lambda c: ["rawdet"])
     lf.run_cases([p.glr for p in pairs], model=False)
     check(rep, pairs, proofs_ok)
@@ -171,6 +176,8 @@ def replay(rep, path):
     lr = lf.Case(p["grammar"], ["LR", "LALR_PAGER"] + ["-"] * 8, [("LR", "0", inp, {"toks": toks})], gram=g)
     glr = lf.Case(p["grammar"], ["GLR", "LALR_RN"] + ["-"] * 8, [("GLR", "0", inp, {"toks": toks})], gram=g)
     glr.max_trees = 2
+    lf.apply_replay_history(lr, p)
+    lf.apply_replay_history(glr, p)
     lf.run_cases([lr], extra_requests=lambda c: ["rawdet"])
     lf.run_cases([glr], model=False)
     check(rep, [Pair(lr, glr)], True)
